@@ -47,6 +47,7 @@ extern "C" {
 # include "osdep-types.h"
 # include "list.h"
 # include "psmalloc.h"
+# include "psverif.h"
 # include "osdep_stdio.h"
 
 /******************************************************************************/
